@@ -40,7 +40,8 @@ def toUint32 (x : Nat) : Nat := x % 4294967296
 
 /-- `Client.ReadFixedHeader`: first byte through `fh.Decode`, then `DecodeLength` byte by byte, then the
     size test exactly as written:
-    `MaximumPacketSize > 0 && uint32(fh.Remaining+1) > MaximumPacketSize`. -/
+    `MaximumPacketSize > 0 && uint32(fh.Remaining+bu+1) > MaximumPacketSize`
+    (`bu` = the number of length bytes `DecodeLength` consumed: the packet's total size). -/
 def readFixedHeader (maxPacketSize : Nat) : List Nat → FHOutcome
   | [] => .needMore
   | b :: rest =>
@@ -51,7 +52,7 @@ def readFixedHeader (maxPacketSize : Nat) : List Nat → FHOutcome
       | .error .eof => .needMore
       | .error .malformed => .error .varint
       | .ok (n, bu) =>
-        if maxPacketSize > 0 && toUint32 (n + 1) > maxPacketSize then .error .tooLarge
+        if maxPacketSize > 0 && toUint32 (n + bu + 1) > maxPacketSize then .error .tooLarge
         else .ok { fh with remaining := n } (bu + 1)
 
 /-- outcome of `ReadPacket` -/
